@@ -1267,7 +1267,7 @@ def _prefixes(N, D, F):
     return pre
 
 
-def explore_content(acc, p, via, flav, chunk, of, supercase):
+def explore_content(acc, p, via, flav, chunk, of, supercase, sample_ok=False):
     N, K, KF = p['classes'], p['budget'] - (1 if supercase else 0), p['flags_matrix_budget']
     if K < 0:
         return
@@ -1279,7 +1279,6 @@ def explore_content(acc, p, via, flav, chunk, of, supercase):
     cache = {}
     flag_cache = set()
     tick = [0]
-    odd = []
 
     def rec(par, cls, budget):
         i = len(par)
@@ -1319,7 +1318,6 @@ def explore_content(acc, p, via, flav, chunk, of, supercase):
                         kind, detail = st
                         if not R.resolve(decls, qtable)[decls[i]['name'].lower()]['corner']:
                             acc.count('rejected-without-corner')
-                            odd.append(dict(rejected_without_corner=case, status=detail))
                         if kind == 'raised':
                             report(acc, cache, [(dict(check='raised', what=detail, element='class',
                                                       op='create', via=via),
@@ -1337,18 +1335,14 @@ def explore_content(acc, p, via, flav, chunk, of, supercase):
                     viol = _uniq(viol)
                     if viol:
                         report(acc, cache, viol, case)
-                    acc.case(case_key(case), nontrivial=not corner,
-                             outcome='violation' if viol else ('accepted-corner' if corner else 'resolved-ok'),
-                             calls=counter[0],
-                             sample=case if (i == 2 and cost == 2 and not viol) else None)
+                    outcome = 'violation' if viol else ('accepted-corner' if corner else 'resolved-ok')
+                    acc.case(case_key(case), nontrivial=not corner, outcome=outcome, calls=counter[0],
+                             sample=case if (sample_ok and i == 2 and cost == 2 and not viol) else None)
                 if i + 1 < N:
                     rec(par2, cls2, left)
                 sess.pop()
     rec([], [], K)
     acc.count('flag-matrix-states', len(flag_cache))
-    for o in odd[:2]:
-        if len(acc.samples) < acc.MAX_SAMPLES:
-            acc.samples.append(o)
 
 
 # ==========================================================================================
@@ -1409,8 +1403,6 @@ def explore_orders(acc, p, via, part, of):
 # ==========================================================================================
 # runner interface
 
-
-
 def plan(tier, seed):
     b = BOUNDS[tier]
     shards = []
@@ -1439,8 +1431,11 @@ def run_shard(shard, tier):
     b = BOUNDS[tier]
     if shard['check'] == 'content':
         flav = {'Q1': list(FLAVORS[shard['f1']]), 'Q2': list(FLAVORS[shard['f2']])}
+        # samples for the evidence file come from one shard only (deterministic)
+        first = (shard['p'], shard['f1'], shard['f2'], shard['chunk'], shard['supercase']) == \
+            (0, 0, 0, 0, False)
         explore_content(acc, b['content'][shard['p']], shard['via'], flav, shard['chunk'],
-                        shard['of'], shard['supercase'])
+                        shard['of'], shard['supercase'], sample_ok=first)
     else:
         explore_orders(acc, b['orders'][shard['p']], shard['via'], shard['part'], shard['of'])
     return acc
